@@ -174,6 +174,9 @@ pub assume_specification [u64::abs_diff] (a: u64, b: u64) -> (r: u64) ensures r 
 /// slice::reverse (std documentation): the elements in reverse order
 pub assume_specification<T> [<[T]>::reverse] (s: &mut [T])
     ensures final(s)@ == old(s)@.reverse();
+/// Option::<Result<T, E>>::transpose (std documentation): None -> Ok(None), Some(Ok(v)) -> Ok(Some(v)), Some(Err(e)) -> Err(e)
+pub assume_specification<T, E> [Option::<Result<T, E>>::transpose] (o: Option<Result<T, E>>) -> (out: Result<Option<T>, E>)
+    ensures match o { None => out == Ok::<Option<T>, E>(None), Some(Ok(v)) => out == Ok::<Option<T>, E>(Some(v)), Some(Err(e)) => out == Err::<Option<T>, E>(e) };
 /// Result::unwrap_or_else (std documentation): the Ok value, else what the closure makes of the error
 pub assume_specification<T, E, F: FnOnce(E) -> T> [Result::<T, E>::unwrap_or_else] (res: Result<T, E>, f: F) -> (out: T)
     requires res is Err ==> f.requires((res->Err_0,)),
